@@ -97,8 +97,8 @@ func loopHeaderOf(b *ssa.BasicBlock) *ssa.BasicBlock {
 			if !d.Dominates(p) {
 				continue
 			}
-			// back edge p->d; b must be inside the loop: b reaches p
-			if b == p || blockReaches(b, p) {
+			// back edge p->d; b must be inside the natural loop: b reaches p without leaving through d
+			if b == p || b == d || blockReachesAvoiding(b, p, d) {
 				return d
 			}
 		}
@@ -877,4 +877,22 @@ func (c *Check) cascadeCallbacks() {
 	if n < 3 {
 		c.Fail("C04-R6 lost instances")
 	}
+}
+
+func blockReachesAvoiding(from, to, avoid *ssa.BasicBlock) bool {
+	seen := map[*ssa.BasicBlock]bool{avoid: true}
+	stack := append([]*ssa.BasicBlock{}, from.Succs...)
+	for len(stack) > 0 {
+		x := stack[len(stack)-1]
+		stack = stack[:len(stack)-1]
+		if seen[x] {
+			continue
+		}
+		seen[x] = true
+		if x == to {
+			return true
+		}
+		stack = append(stack, x.Succs...)
+	}
+	return false
 }
